@@ -624,8 +624,14 @@ class Region(object):
             if len(rl) != 1:
                 continue
             r = rl[0]
+            # integer width casts do not change which cells a thread owns: (int)(((int64_t)N * tid) / nt)
+            while r.k == "cast":
+                r = r.a[0]
+            den = r.a[1] if r.k == "bin" and r.op == "/" else None
+            while den is not None and den.k == "cast":
+                den = den.a[0]
             # N * tid / nt    or   N * (tid + 1) / nt
-            if r.k == "bin" and r.op == "/" and r.a[1].k == "var" and r.a[1].name == nt:
+            if r.k == "bin" and r.op == "/" and den.k == "var" and den.name == nt:
                 num = self.form(r.a[0], {})
                 if num is None:
                     continue
